@@ -6,6 +6,10 @@
 //! decoded by `Document::decode_text` for every mapped code and every ordered pair of mapped codes.
 //! Oracle: `refcmap::expected_text` (last definition wins, range offset on the last unit, arrays
 //! indexed by offset, UTF-16 decoding).
+//! Further families (see the rule text in `main`): overlap sequences, array targets, byte-order-mark
+//! values, large sections, long strings, degenerate CMaps, and - with ranges that may carry out of the
+//! low byte of the last unit - last-unit arithmetic at every 16-bit / surrogate boundary (`last_unit`),
+//! the unit 0000 (`zero_units`), special code points (`special_targets`), longest targets (`long_targets`).
 use lopdf::{Dictionary, Document, Object, Stream};
 use serde_json::{json, Value};
 use std::collections::BTreeMap;
@@ -84,6 +88,16 @@ struct Stats {
     long_inputs: u64,
     longest_input: u64,
     largest_section: u64,
+    /// cases whose observed text differs from the reference ONLY in what an unpaired surrogate became
+    /// (the statement does not fix that): counted, no verdict
+    open_unpaired_differs: u64,
+    /// tallies of the parts that lift the low-byte clause (per CMap / per (CMap, input) of the default spelling)
+    carry_cmaps: u64,
+    inputs_relying_on_wrap: u64,
+    inputs_with_unpaired_surrogate: u64,
+    inputs_pairing_across_codes: u64,
+    inputs_with_zero_unit: u64,
+    longest_target_units: u64,
 }
 
 impl Stats {
@@ -115,6 +129,13 @@ impl Stats {
         self.long_inputs += o.long_inputs;
         self.longest_input = self.longest_input.max(o.longest_input);
         self.largest_section = self.largest_section.max(o.largest_section);
+        self.open_unpaired_differs += o.open_unpaired_differs;
+        self.carry_cmaps += o.carry_cmaps;
+        self.inputs_relying_on_wrap += o.inputs_relying_on_wrap;
+        self.inputs_with_unpaired_surrogate += o.inputs_with_unpaired_surrogate;
+        self.inputs_pairing_across_codes += o.inputs_pairing_across_codes;
+        self.inputs_with_zero_unit += o.inputs_with_zero_unit;
+        self.longest_target_units = self.longest_target_units.max(o.longest_target_units);
         for (k, v) in o.by_part {
             *self.by_part.entry(k).or_insert(0) += v;
         }
@@ -312,6 +333,72 @@ fn classify_bom(defs: &[Def], extra: &Extra, inp: &Input, observed: &Out, st: &m
 }
 
 // ---------------------------------------------------------------------------------------------
+// comparison with the reference
+
+#[derive(Clone, Copy, PartialEq, Debug)]
+enum Agree {
+    /// the observed text is the reference text
+    Yes,
+    /// it differs, but only in what became of a surrogate that has no partner inside the value of its own
+    /// code; every character the statement fixes is there, in order: counted, no verdict
+    Open,
+    No,
+}
+
+/// The reference text decides (fast path). Only when it differs and the values of the input hold an
+/// unpaired surrogate is the observed text matched against what the statement fixes (`rc::fixed_pattern`).
+fn agree(defs: &[Def], inp: &Input, out: &Out, expected: &str) -> Agree {
+    match out {
+        Ok(s) if s == expected => Agree::Yes,
+        Ok(s) => match rc::fixed_pattern(defs, inp) {
+            Some(p) if p.contains(&rc::Tok::Any) && rc::pattern_matches(&p, s) => Agree::Open,
+            _ => Agree::No,
+        },
+        Err(_) => Agree::No,
+    }
+}
+
+fn agrees(defs: &[Def], inp: &Input, out: &Out, expected: &str, st: &mut Stats) -> bool {
+    match agree(defs, inp, out, expected) {
+        Agree::Yes => true,
+        Agree::Open => {
+            st.open_unpaired_differs += 1;
+            true
+        }
+        Agree::No => false,
+    }
+}
+
+/// What the expected text of `inp` rests on besides the statement's words (shown with a failing case).
+fn rests_on(defs: &[Def], inp: &Input) -> String {
+    let mut notes = vec![];
+    let mut units = vec![];
+    for &(l, c) in inp {
+        if let Some(w) = rc::winner(defs, l, c) {
+            if defs[w].wraps_at(c) && !notes.contains(&"the last unit wraps modulo 2^16") {
+                notes.push("the last unit wraps modulo 2^16");
+            }
+            if defs[w].carries_low_byte() && !notes.contains(&"the range carries out of the low byte of its last unit (ISO 32000-1 9.10.3 leaves that undefined; the property's words add the offset to the 16-bit unit)") {
+                notes.push("the range carries out of the low byte of its last unit (ISO 32000-1 9.10.3 leaves that undefined; the property's words add the offset to the 16-bit unit)");
+            }
+            units.extend(defs[w].value(c));
+        }
+    }
+    if rc::has_unpaired(&units) {
+        notes.push("an unpaired surrogate is written U+FFFD here; a text that differs only in what such a surrogate became gets no verdict");
+    }
+    if notes.is_empty() {
+        String::new()
+    } else {
+        format!(" [{}]", notes.join("; "))
+    }
+}
+
+fn show_expected(defs: &[Def], inp: &Input, expected: &str) -> String {
+    format!("{}{}", show(&Ok(expected.to_string())), rests_on(defs, inp))
+}
+
+// ---------------------------------------------------------------------------------------------
 // one CMap, all its renderings
 
 fn input_json(inp: &Input) -> Value {
@@ -359,6 +446,42 @@ fn nontrivial(defs: &[Def]) -> bool {
     (0..defs.len()).any(|i| (i + 1..defs.len()).any(|j| defs[i].overlaps_or_touches(&defs[j])))
 }
 
+/// Parts whose incrementing ranges may carry out of the low byte of the last unit (and wrap at FFFF).
+const LENIENT_PARTS: [&str; 4] = ["last_unit", "zero_units", "special_targets", "long_targets"];
+
+/// What the lenient parts hold (default spelling; every (CMap, input) once).
+fn tally(defs: &[Def], inputs: &[Input], st: &mut Stats) {
+    st.carry_cmaps += defs.iter().any(|d| d.carries_low_byte()) as u64;
+    for d in defs {
+        let n = match d {
+            Def::Char { t, .. } | Def::Range { t, .. } => t.len(),
+            Def::Array { ts, .. } => ts.iter().map(|t| t.len()).max().unwrap_or(0),
+        };
+        st.longest_target_units = st.longest_target_units.max(n as u64);
+    }
+    for inp in inputs {
+        let mut units: Vec<u16> = vec![];
+        let (mut wraps, mut lone_in_code) = (false, false);
+        for &(l, c) in inp {
+            let Some(w) = rc::winner(defs, l, c) else { continue };
+            wraps |= defs[w].wraps_at(c);
+            let v = defs[w].value(c);
+            lone_in_code |= rc::has_unpaired(&v);
+            units.extend(v);
+        }
+        let lone = rc::has_unpaired(&units);
+        st.inputs_relying_on_wrap += wraps as u64;
+        st.inputs_with_unpaired_surrogate += lone as u64;
+        // a high surrogate ending one code's value meets a low surrogate starting the next one's
+        let mut p = vec![];
+        rc::value_pattern(&units, &mut p);
+        let whole = p.iter().filter(|t| **t == rc::Tok::Any).count();
+        let per_code = rc::fixed_pattern(defs, inp).map(|p| p.iter().filter(|t| **t == rc::Tok::Any).count()).unwrap_or(0);
+        st.inputs_pairing_across_codes += (lone_in_code && per_code > whole) as u64;
+        st.inputs_with_zero_unit += units.contains(&0) as u64;
+    }
+}
+
 fn check_cmap(run: &Run, part: &'static str, defs: &[Def], how: Explore, st: &mut Stats) {
     check_cmap_inputs(run, part, defs, &Extra::default(), how, inputs_for(defs), st)
 }
@@ -367,9 +490,13 @@ fn check_cmap(run: &Run, part: &'static str, defs: &[Def], how: Explore, st: &mu
 /// A CMap with `extra.empty_sections` is a liberal spelling in every rendering (rejection is counted,
 /// not failed; accepted and mis-decoded fails).
 fn check_cmap_inputs(run: &Run, part: &'static str, defs: &[Def], extra: &Extra, how: Explore, inputs: Vec<Input>, st: &mut Stats) {
-    if !defs.iter().all(|d| d.well_formed()) {
+    let lenient = LENIENT_PARTS.contains(&part);
+    if !defs.iter().all(|d| if lenient { d.well_formed_lenient() } else { d.well_formed() }) {
         eprintln!("MACHINERY: generated an ill-formed definition in part {}", part);
         std::process::exit(2);
+    }
+    if lenient {
+        tally(defs, &inputs, st);
     }
     let expected: Vec<String> = inputs.iter().map(|i| rc::expected_text(defs, i).expect("inputs are mapped codes")).collect();
     let nt = nontrivial(defs);
@@ -410,14 +537,14 @@ fn check_cmap_inputs(run: &Run, part: &'static str, defs: &[Def], extra: &Extra,
             // singles first, then strings of several codes are explained by their singles
             let mut single_class: BTreeMap<(u8, u32), Option<&'static str>> = BTreeMap::new();
             for (k, inp) in inputs.iter().enumerate() {
-                if inp.len() == 1 && outs[k].as_ref() != Ok(&expected[k]) {
+                if inp.len() == 1 && !agrees(defs, inp, &outs[k], &expected[k], st) {
                     let f = classify_bom(defs, extra, inp, &outs[k], st).or_else(|| classify_code(defs, inp[0].0, inp[0].1, st));
                     single_class.insert(inp[0], f);
                     base[k] = Some((outs[k].clone(), f));
                 }
             }
             for (k, inp) in inputs.iter().enumerate() {
-                if inp.len() != 1 && outs[k].as_ref() != Ok(&expected[k]) {
+                if inp.len() != 1 && !agrees(defs, inp, &outs[k], &expected[k], st) {
                     if let Some(f) = classify_bom(defs, extra, inp, &outs[k], st) {
                         base[k] = Some((outs[k].clone(), Some(f)));
                         continue;
@@ -456,7 +583,7 @@ fn check_cmap_inputs(run: &Run, part: &'static str, defs: &[Def], extra: &Extra,
                     match f {
                         None if !violated => {
                             violated = true;
-                            run.fail(None, case_json_ex(part, defs, extra, &sites, &[], &text0, Some(&inputs[k])), &show(obs), &show(&Ok(expected[k].clone())));
+                            run.fail(None, case_json_ex(part, defs, extra, &sites, &[], &text0, Some(&inputs[k])), &show(obs), &show_expected(defs, &inputs[k], &expected[k]));
                         }
                         Some(id) if !ids.contains(id) => {
                             ids.push(id);
@@ -525,7 +652,7 @@ fn check_cmap_inputs(run: &Run, part: &'static str, defs: &[Def], extra: &Extra,
                 let mut bad = None;
                 let mut repeats = 0;
                 for k in 0..inputs.len() {
-                    if outs[k].as_ref() == Ok(&expected[k]) {
+                    if agrees(defs, &inputs[k], &outs[k], &expected[k], st) {
                         continue;
                     }
                     match &base[k] {
@@ -542,7 +669,7 @@ fn check_cmap_inputs(run: &Run, part: &'static str, defs: &[Def], extra: &Extra,
                         st.liberal_misdecoded += 1;
                         lib_slot(st, 2);
                     }
-                    run.fail(None, case_json_ex(part, defs, extra, &sites, &script, &text, Some(&inputs[k])), &show(&outs[k]), &show(&Ok(expected[k].clone())));
+                    run.fail(None, case_json_ex(part, defs, extra, &sites, &script, &text, Some(&inputs[k])), &show(&outs[k]), &show_expected(defs, &inputs[k], &expected[k]));
                 } else if liberal {
                     st.liberal_accepted_correct += 1;
                     lib_slot(st, 0);
@@ -607,6 +734,272 @@ fn bom_cmaps() -> Vec<Vec<Def>> {
             out.push(with(Def::Char { len, code: b, t: vec![t, 0x0041] }));
             out.push(with(Def::Char { len, code: b, t: vec![0x0041, t] }));
             out.push(with(Def::Range { len, lo: b, hi: b + 1, t: vec![0x0041, t - 1] }));
+        }
+    }
+    out
+}
+
+// ---------------------------------------------------------------------------------------------
+// last-unit arithmetic, zero units, special code points, longest targets
+
+/// The last unit of a target just below a boundary of 16-bit addition / UTF-16 classification:
+/// 00FF|0100 (carry out of the low byte), 7FFF|8000 (sign bit), D7FF|D800 (into the high surrogates),
+/// DBFF|DC00 (high to low surrogates), DFFF|E000 (out of the surrogates), FEFE|FEFF (onto the byte order
+/// mark value, then FEFF|FF00), FFFF|0000 (wrap; passes FFFD, FFFE, FFFF).
+const LU_BOUNDARIES: [u16; 7] = [0x00FF, 0x7FFF, 0xD7FF, 0xDBFF, 0xDFFF, 0xFEFE, 0xFFFF];
+/// Units in front of the last one: none, one (plain, zero, high surrogate, the highest high surrogate,
+/// a low surrogate, the byte order mark value) and two (plain, plain + high surrogate, a whole pair,
+/// zero + highest high surrogate).
+const LU_PREFIXES: [&[u16]; 11] = [
+    &[],
+    &[0x0041],
+    &[0x0000],
+    &[0xD83D],
+    &[0xDBFF],
+    &[0xDC00],
+    &[0xFEFF],
+    &[0x0041, 0x0042],
+    &[0x0041, 0xD83D],
+    &[0xD83D, 0xDE00],
+    &[0x0000, 0xDBFF],
+];
+/// (code length, first code of the range): 1-byte, 2-byte, 2-byte codes crossing 00FF|0100, the last
+/// 2-byte codes, the last 4-byte codes.
+const LU_BASES: [(u8, u32); 5] = [(2, 0x0010), (1, 0x20), (2, 0x00FC), (2, 0xFFF8), (4, 0xFFFF_FFF8)];
+
+#[derive(Clone, Copy, PartialEq, Debug)]
+enum LuForm {
+    /// `<lo> <hi> <prefix s>`
+    Range,
+    /// the same followed by a bfchar for the second code (the stored interval is split)
+    RangeSplit,
+    /// the same preceded by a two-code range with the identical target, touching it
+    RangeTwin,
+    /// `<lo> <hi> [<prefix s> <prefix s+1> ...]`: the values written out as array elements
+    Array,
+    /// `<lo> <hi> [<prefix s> <prefix s> ...]`: equal elements (nothing is added to an array element)
+    ArrayConst,
+    /// one bfchar per code with the value written out
+    Chars,
+}
+const LU_FORMS: [LuForm; 6] = [LuForm::Range, LuForm::RangeSplit, LuForm::RangeTwin, LuForm::Array, LuForm::ArrayConst, LuForm::Chars];
+
+/// The CMap in which `n` consecutive codes from `base` get the values prefix + (s + i mod 2^16).
+fn last_unit_cmap(len: u8, base: u32, prefix: &[u16], s: u16, n: u32, form: LuForm) -> Option<Vec<Def>> {
+    let val = |i: u32| -> rc::Units {
+        let mut v = prefix.to_vec();
+        v.push(s.wrapping_add(i as u16));
+        v
+    };
+    let (lo, hi) = (base, base + (n - 1));
+    let range = Def::Range { len, lo, hi, t: val(0) };
+    Some(match form {
+        LuForm::Range => vec![range],
+        LuForm::RangeSplit if n >= 3 => vec![range, Def::Char { len, code: lo + 1, t: vec![0x0058] }],
+        LuForm::RangeTwin => vec![Def::Range { len, lo: lo - 2, hi: lo - 1, t: val(0) }, range],
+        LuForm::Array => vec![Def::Array { len, lo, hi, ts: (0..n).map(val).collect() }],
+        LuForm::ArrayConst if n >= 2 => vec![Def::Array { len, lo, hi, ts: (0..n).map(|_| val(0)).collect() }],
+        LuForm::Chars => (0..n).map(|i| Def::Char { len, code: lo + i, t: val(i) }).collect(),
+        _ => return None,
+    })
+}
+
+/// `last_unit`: boundary x prefix x (k, c) x form x code base. The range starts k = 0..4 values below the
+/// first value past the boundary and goes c = 1..4 values past it (k + c = 1..8 codes).
+/// The bool marks the CMaps that also get the white-space deviations of the tier.
+fn last_unit_cmaps() -> Vec<(Vec<Def>, bool)> {
+    let mut out = vec![];
+    for (bi, &(len, base)) in LU_BASES.iter().enumerate() {
+        for &x in &LU_BOUNDARIES {
+            for prefix in LU_PREFIXES {
+                for k in 0..=4u32 {
+                    for c in 1..=4u32 {
+                        let s = x.wrapping_add(1).wrapping_sub(k as u16);
+                        for form in LU_FORMS {
+                            if let Some(defs) = last_unit_cmap(len, base, prefix, s, k + c, form) {
+                                out.push((defs, bi < 2 && form == LuForm::Range));
+                            }
+                        }
+                    }
+                }
+            }
+        }
+    }
+    // ranges much longer than a low byte: the offset itself exceeds 00FF / FFFF
+    for (len, lo, n, t) in [
+        (2u8, 0x0100u32, 0x0201u32, vec![0x0041u16, 0x00F0]),
+        (2, 0x0100, 0x0201, vec![0xD83D, 0xDC00]),
+        (2, 0x0000, 0x10000, vec![0x0041, 0xFF00]),
+        (2, 0x0000, 0x10000, vec![0xD7F0]),
+        (3, 0x01_0000, 0x1_1000, vec![0xD83D, 0xDE00]),
+        (4, 0xFFFE_F000, 0x1_1000, vec![0x0042, 0x0000]),
+        (1, 0x00, 0x100, vec![0xDBFF, 0xDF80]),
+        (1, 0x00, 0x100, vec![0xFF80]),
+    ] {
+        out.push((vec![Def::Range { len, lo, hi: lo + (n - 1), t }], false));
+    }
+    out
+}
+
+/// All strings of 1..=3 codes when at most 6 codes are mapped (the empty string too); otherwise
+/// `inputs_for` plus every triple over the 8 codes it forms pairs of.
+fn inputs_triples(defs: &[Def]) -> Vec<Input> {
+    let codes = rc::mapped_codes(defs);
+    let mut v = inputs_for(defs);
+    let pool: Vec<(u8, u32)> = if codes.len() <= 6 {
+        codes
+    } else {
+        let n = codes.len();
+        let mut p: Vec<(u8, u32)> = [0, 1, 2, n / 2, n / 2 + 1, n - 3, n - 2, n - 1].iter().map(|&i| codes[i.min(n - 1)]).collect();
+        p.dedup();
+        p
+    };
+    for a in &pool {
+        for b in &pool {
+            for c in &pool {
+                v.push(vec![*a, *b, *c]);
+            }
+        }
+    }
+    v
+}
+
+/// `zero_units`: targets that are, start with, contain or end in the unit 0000, as bfchar, one-code
+/// bfrange, incrementing bfrange (from 0000, and onto 0000 by the wrap from FFFF) and array element,
+/// next to two ordinary codes (one unit, two units). Identity-style ranges <00..FF> / <0000..00FF> /
+/// <0000..FFFF> -> <0000> (code 0 maps to U+0000). Codes 0030.. and 0000.. (2-byte), 30.. and 00.. (1-byte).
+fn zero_unit_cmaps() -> Vec<Vec<Def>> {
+    let zt: Vec<rc::Units> = vec![
+        vec![0x0000],
+        vec![0x0000, 0x0000],
+        vec![0x0000, 0x0041],
+        vec![0x0041, 0x0000],
+        vec![0x0041, 0x0000, 0x0042],
+        vec![0x0000, 0x0041, 0x0000],
+        vec![0x0000, 0xD83D, 0xDE00],
+        vec![0xD83D, 0xDE00, 0x0000],
+        vec![0xD83D, 0x0000, 0xDE00],
+    ];
+    let mut out = vec![];
+    for (len, b) in [(2u8, 0x0030u32), (2, 0x0000), (1, 0x30), (1, 0x00)] {
+        let plain = vec![Def::Char { len, code: b + 4, t: vec![0x0042] }, Def::Char { len, code: b + 5, t: rc::T_LIG.to_vec() }];
+        let mut with = |ds: Vec<Def>| {
+            let mut v = plain.clone();
+            v.extend(ds);
+            out.push(v);
+        };
+        for t in &zt {
+            with(vec![Def::Char { len, code: b, t: t.clone() }]);
+            with(vec![Def::Range { len, lo: b, hi: b, t: t.clone() }]);
+            with(vec![Def::Array { len, lo: b, hi: b, ts: vec![t.clone()] }]);
+            with(vec![Def::Range { len, lo: b, hi: b + 2, t: t.clone() }]);
+        }
+        for t in [vec![0xFFFEu16], vec![0xFFFF], vec![0x0041, 0xFFFF], vec![0x0000, 0xFFFE], vec![0xD83D, 0xFFFF]] {
+            with(vec![Def::Range { len, lo: b, hi: b + 2, t }]);
+        }
+        let z = || vec![0x0000u16];
+        let a = |u: u16| vec![u];
+        for ts in [
+            vec![z(), a(0x41), a(0x43)],
+            vec![a(0x41), z(), a(0x43)],
+            vec![a(0x41), a(0x43), z()],
+            vec![z(), z(), z()],
+            vec![z(), a(0x01), a(0x02)],
+            vec![vec![0x0041, 0x0000], vec![0x0000, 0x0041], z()],
+            vec![vec![0x0041, 0x0000, 0x0042], z(), a(0x44)],
+        ] {
+            with(vec![Def::Array { len, lo: b, hi: b + 2, ts }]);
+        }
+        with(vec![Def::Array { len, lo: b, hi: b + 1, ts: vec![z(), z()] }]);
+        // 0000 given by the later of two definitions, and taken away again by a later one
+        with(vec![Def::Range { len, lo: b, hi: b + 3, t: a(0x41) }, Def::Char { len, code: b + 1, t: z() }]);
+        with(vec![Def::Range { len, lo: b, hi: b + 3, t: z() }, Def::Char { len, code: b, t: a(0x41) }]);
+        with(vec![Def::Char { len, code: b + 1, t: z() }, Def::Char { len, code: b + 2, t: z() }, Def::Char { len, code: b + 3, t: vec![0x0000, 0x0000] }]);
+    }
+    // identity-style ranges: code 0 -> U+0000
+    out.push(vec![Def::Range { len: 2, lo: 0, hi: 0xFF, t: vec![0] }]);
+    out.push(vec![Def::Range { len: 1, lo: 0, hi: 0xFF, t: vec![0] }]);
+    out.push(vec![Def::Range { len: 2, lo: 0, hi: 0xFFFF, t: vec![0] }]);
+    out.push(vec![Def::Range { len: 2, lo: 0, hi: 0xFF, t: vec![0] }, Def::Range { len: 2, lo: 0x0100, hi: 0x01FF, t: vec![0x0100] }]);
+    out.push(vec![Def::Array { len: 1, lo: 0, hi: 3, ts: vec![vec![0], vec![1], vec![2], vec![3]] }]);
+    out
+}
+
+/// `special_targets`: code points an implementation might treat specially - controls and line ends,
+/// invisible and formatting characters, the ends of the BMP blocks around the surrogates, private use,
+/// non-characters, U+FFFD itself, the byte order mark values, and supplementary code points at both ends
+/// of the planes (incl. plane non-characters, private-use planes, a tag character) - alone, first, last,
+/// in the middle and doubled in a target; as bfchar, as incrementing range (two codes), as array element
+/// (first and second), next to two ordinary codes.
+fn special_target_cmaps() -> Vec<Vec<Def>> {
+    let atoms: Vec<rc::Units> = [
+        0x0001u16, 0x0009, 0x000A, 0x000C, 0x000D, 0x001B, 0x0020, 0x007F, 0x0080, 0x0085, 0x00A0, 0x00AD, 0x0300, 0x200B, 0x200D, 0x2028, 0x2029, 0x202E, 0xD7FF, 0xE000, 0xF8FF, 0xFDD0, 0xFDEF,
+        0xFEFF, 0xFFF9, 0xFFFC, 0xFFFD, 0xFFFE, 0xFFFF,
+    ]
+    .iter()
+    .map(|&u| vec![u])
+    .chain(
+        [[0xD800u16, 0xDC00], [0xDBFF, 0xDFFF], [0xD83F, 0xDFFE], [0xD83F, 0xDFFF], [0xDB40, 0xDC01], [0xDB80, 0xDC00], [0xDBFF, 0xDFFE], [0xDBFF, 0xDC00], [0xD800, 0xDFFF]].iter().map(|p| p.to_vec()),
+    )
+    .collect();
+    let mut out = vec![];
+    for (len, b) in [(2u8, 0x0051u32), (1u8, 0x51u32)] {
+        let plain = vec![Def::Char { len, code: b + 4, t: vec![0x0042] }, Def::Char { len, code: b + 5, t: rc::T_LIG.to_vec() }];
+        for a in &atoms {
+            let cat = |parts: &[&[u16]]| -> rc::Units { parts.concat() };
+            let shapes = [cat(&[a]), cat(&[a, &[0x0041]]), cat(&[&[0x0041], a]), cat(&[&[0x0041], a, &[0x0042]]), cat(&[a, a])];
+            for t in shapes {
+                for d in [
+                    Def::Char { len, code: b, t: t.clone() },
+                    Def::Range { len, lo: b, hi: b + 1, t: t.clone() },
+                    Def::Array { len, lo: b, hi: b + 1, ts: vec![vec![0x0043], t.clone()] },
+                    Def::Array { len, lo: b, hi: b + 1, ts: vec![t.clone(), vec![0x0043]] },
+                ] {
+                    let mut v = plain.clone();
+                    v.push(d);
+                    out.push(v);
+                }
+            }
+        }
+    }
+    out
+}
+
+/// `long_targets`: targets of 127, 128, 129, 255 and 256 units (256 = 512 bytes is the longest string a
+/// CMap may hold): plain letters; a surrogate pair as the last two units; the last unit DFFF after a high
+/// surrogate (the second code of a range leaves the pair) and FFFF (the second code wraps onto 0000);
+/// a 0000 in the middle and at the end; a pair in the middle. As bfchar, two-code range and array element
+/// (the second element is the first one reversed).
+fn long_target_cmaps() -> Vec<Vec<Def>> {
+    let mut out = vec![];
+    for (len, b) in [(2u8, 0x0061u32), (1u8, 0x61u32)] {
+        for n in [127usize, 128, 129, 255, 256] {
+            let letters = |n: usize| -> rc::Units { (0..n).map(|i| 0x0041 + (i % 26) as u16).collect() };
+            let mut kinds: Vec<rc::Units> = vec![letters(n)];
+            let mut k = letters(n);
+            k[n - 2] = 0xD83D;
+            k[n - 1] = 0xDE00;
+            kinds.push(k.clone());
+            k[n - 1] = 0xDFFF;
+            kinds.push(k.clone());
+            let mut k = letters(n);
+            k[n - 1] = 0xFFFF;
+            kinds.push(k);
+            let mut k = letters(n);
+            k[n / 2] = 0x0000;
+            k[n - 1] = 0x0000;
+            kinds.push(k);
+            // a pair that straddles unit index 127|128 resp. the middle
+            let mut k = letters(n);
+            k[n / 2 - 1] = 0xD83D;
+            k[n / 2] = 0xDE00;
+            kinds.push(k);
+            for t in kinds {
+                let plain = Def::Char { len, code: b + 4, t: vec![0x0042] };
+                out.push(vec![plain.clone(), Def::Char { len, code: b, t: t.clone() }]);
+                out.push(vec![plain.clone(), Def::Range { len, lo: b, hi: b + 1, t: t.clone() }]);
+                out.push(vec![plain.clone(), Def::Array { len, lo: b, hi: b + 1, ts: vec![t.clone(), t.iter().rev().cloned().collect()] }]);
+            }
         }
     }
     out
@@ -1021,6 +1414,14 @@ fn stats_to_run(run: &Run, s: &Stats, menu_len: usize) {
     run.set("long_input_strings", json!(s.long_inputs));
     run.set("longest_input_codes", json!(s.longest_input));
     run.set("largest_definition_sequence", json!(s.largest_section));
+    run.set("lenient_parts", json!(LENIENT_PARTS));
+    run.set("lenient_cmaps_with_low_byte_carry", json!(s.carry_cmaps));
+    run.set("lenient_inputs_relying_on_wrap_mod_65536", json!(s.inputs_relying_on_wrap));
+    run.set("lenient_inputs_with_unpaired_surrogate", json!(s.inputs_with_unpaired_surrogate));
+    run.set("lenient_inputs_pairing_surrogates_across_codes", json!(s.inputs_pairing_across_codes));
+    run.set("lenient_inputs_with_zero_unit", json!(s.inputs_with_zero_unit));
+    run.set("longest_target_units", json!(s.longest_target_units));
+    run.set("open_unpaired_surrogate_rendering_differs_NO_VERDICT", json!(s.open_unpaired_differs));
     run.set("cmaps_with_known_finding", json!(s.cmaps_with_known_finding));
     run.set("deviation_renderings_repeating_a_known_finding", json!(s.known_repeated_in_deviation));
 }
@@ -1060,6 +1461,17 @@ fn main() {
          on top of an identity range two codes wider at its start, middle and end, 1- and 2-byte codes, with the deviations of the tier; arrays_alphabet = every array of 2..4 elements \
          over 12 elements (leading unit 0041..0044 x 1..3 units) and over 6 elements sharing the leading unit (last unit counting), default spelling. \
          bom_targets = 24 CMaps whose targets hold FEFF / FFFE as the only, first or second unit (bfchar, range, array), decoded first, in the middle and last. \
+         last_unit = last-unit arithmetic: 7 boundaries of the last unit (00FF|0100, 7FFF|8000, D7FF|D800, DBFF|DC00, DFFF|E000, FEFE|FEFF, FFFF|0000) x 11 unit sequences in front of it \
+         (none; 0041; 0000; D83D; DBFF; DC00; FEFF; 0041 0042; 0041 D83D; D83D DE00; 0000 DBFF) x ranges that start k=0..4 values below the first value past the boundary and go c=1..4 values past it \
+         (1..8 codes) x 6 forms (the incrementing bfrange alone; followed by a bfchar on its second code; preceded by a touching two-code range with the identical target; the values written out as an array; an \
+         array of equal elements; one bfchar per code) x 5 code windows (0010.., 20.., 00FC.. crossing the code's low byte, FFF8..FFFF, FFFFFFF8..FFFFFFFF), plus 8 ranges of 256..69,632 codes whose offset itself \
+         exceeds 00FF / FFFF; default spelling and all merges taken, the plain range form over 0010.. and 20.. (thorough: all) also with every single deviation. \
+         zero_units = targets that are, start with, contain or end in 0000 (9 targets as bfchar, one-code bfrange, one-element array, three-code incrementing range; ranges that wrap from FFFE/FFFF onto 0000; \
+         arrays with 0000 first, in the middle, last, everywhere and inside multi-unit elements; 0000 given and taken away by a later definition) next to a one-unit and a two-unit code, for 2-byte codes 0030.. and 0000.. \
+         and 1-byte codes 30.. and 00.., and identity-style ranges over 00..FF, 0000..00FF, 0000..FFFF; inputs: every string of <= 3 mapped codes (more than 6 codes: all codes alone, pairs and triples over 8 of them). \
+         special_targets = 38 atoms (controls, line ends, invisible/formatting characters, D7FF, E000, F8FF, FDD0, FDEF, FEFF, FFF9, FFFC, FFFD, FFFE, FFFF; U+10000, U+10FFFF, U+1FFFE, U+1FFFF, U+E0001, U+F0000, U+10FFFE, U+10FC00, U+103FF) \
+         alone / first / last / in the middle / doubled in a target x bfchar, two-code range, array element (first, second) x 1- and 2-byte codes, strings of <= 3 codes, every single deviation. \
+         long_targets = targets of 127/128/129/255/256 units (6 contents) as bfchar, two-code range and array element. \
          Degenerate CMaps: structure = 5 small definition sets x explicit code spaces (one range; ranges of other code lengths nothing is mapped in; one codespace section per range) \
          and, as liberal spellings, an empty section (0 beginbfchar / 0 beginbfrange) in front of each definition and at the end; mappingless = CMaps with code space ranges only \
          (6 code spaces, split or not; with empty sections as liberal spellings), default spelling and every single deviation, decoded for the empty string (must be empty), \
@@ -1073,7 +1485,11 @@ fn main() {
          are not in distinct_nontrivial.",
     );
     run.assume("reference semantics in harness/src/refcmap.rs (last covering definition wins; range offset added to the last UTF-16 unit; array indexed by offset; UTF-16 decoding) is the property's statement");
-    run.assume("domain: well-formed CMaps only - array targets have exactly hi-lo+1 elements, incrementing ranges never carry out of the low byte of the last unit, inputs are strings of mapped codes, code sets are prefix-free (1-byte codes 10..17 never start a longer mapped code)");
+    run.assume("domain: well-formed CMaps only - array targets have exactly hi-lo+1 elements, targets have 1..256 units, inputs are strings of mapped codes, code sets are prefix-free (1-byte codes 10..17 never start a longer mapped code); outside the parts last_unit, zero_units, special_targets and long_targets incrementing ranges never carry out of the low byte of the last unit");
+    run.assume("parts last_unit, zero_units, special_targets, long_targets: a bfrange whose offset carries out of the low byte of its last unit (ISO 32000-1 9.10.3 calls the result undefined) is given the value the property's own words give it - the offset is added to the last UTF-16 unit as a 16-bit number, no other unit changes (lenient_cmaps_with_low_byte_carry counts these CMaps)");
+    run.assume("the sum wraps modulo 2^16 (FFFF + 1 = 0000), the one reading under which only the last unit changes; the unchanged tree does the same (wrapping_add in ToUnicodeCMap::get); lenient_inputs_relying_on_wrap_mod_65536 counts the inputs whose expected text rests on this");
+    run.assume("the units of all codes of the input are concatenated and decoded as UTF-16; a surrogate without a partner is U+FFFD in the reference text (what the unchanged tree gives). The statement is silent about unpaired surrogates and about a pair formed by the end of one code's value and the start of the next: when the observed text differs from the reference text ONLY there - every character the statement fixes is present in order, a surrogate unpaired inside its own code's value standing for any zero or more characters - the case is counted in open_unpaired_surrogate_rendering_differs_NO_VERDICT and no verdict is given; a fixed character that is missing, altered or moved is a violation");
+    run.assume("U+0000, non-characters, private-use code points and U+FFFD are targets like any other: the CMap defines them, the decoded text holds them");
     run.assume("a CMap whose only sections are codespace ranges is well-formed and maps nothing: the empty string is its only string of mapped codes and decodes to the empty string; for byte strings of unmapped codes only C04's oracle (the call returns) is applied, on mapping-less CMaps only");
     run.assume("a mapping section with zero entries (0 beginbfchar endbfchar) is treated as a liberal spelling: rejection is counted (liberal_by_choice empty_section=1), acceptance with a wrong decoding fails");
     run.assume("liberal spellings (line break inside an array / between <lo> and <hi> / before the target, no space between array elements, a section on one line) may be rejected by lopdf's grammar without failing the property; accepting them and decoding wrongly fails it");
@@ -1173,6 +1589,38 @@ fn main() {
     util::par_for(boms.len(), |i| {
         let mut st = Stats::default();
         check_cmap(&run, "bom_targets", &boms[i], Explore::Upto(1), &mut st);
+        total.lock().unwrap().merge(st);
+    });
+    // 8c. last-unit arithmetic at every boundary of 16-bit addition and UTF-16 classification
+    let lu = last_unit_cmaps();
+    util::par_for(lu.len().div_ceil(64), |ci| {
+        let mut st = Stats::default();
+        for (defs, dev) in &lu[ci * 64..(ci * 64 + 64).min(lu.len())] {
+            let how = if *dev || t { Explore::Upto(1) } else { Explore::AllMerged };
+            check_cmap(&run, "last_unit", defs, how, &mut st);
+        }
+        total.lock().unwrap().merge(st);
+    });
+    // 8d. the unit 0000 in targets; 8e. special code points; 8f. the longest targets
+    let zeros = zero_unit_cmaps();
+    util::par_for(zeros.len(), |i| {
+        let mut st = Stats::default();
+        let big = rc::mapped_codes(&zeros[i]).len() > 24;
+        check_cmap_inputs(&run, "zero_units", &zeros[i], &Extra::default(), if big { Explore::Upto(0) } else { Explore::Upto(d) }, inputs_triples(&zeros[i]), &mut st);
+        total.lock().unwrap().merge(st);
+    });
+    let special = special_target_cmaps();
+    util::par_for(special.len().div_ceil(16), |ci| {
+        let mut st = Stats::default();
+        for defs in &special[ci * 16..(ci * 16 + 16).min(special.len())] {
+            check_cmap_inputs(&run, "special_targets", defs, &Extra::default(), Explore::Upto(1), inputs_triples(defs), &mut st);
+        }
+        total.lock().unwrap().merge(st);
+    });
+    let longt = long_target_cmaps();
+    util::par_for(longt.len(), |i| {
+        let mut st = Stats::default();
+        check_cmap_inputs(&run, "long_targets", &longt[i], &Extra::default(), Explore::Upto(1), inputs_triples(&longt[i]), &mut st);
         total.lock().unwrap().merge(st);
     });
     // 9. degenerate CMaps: unusual section structure with mappings; no mappings at all
@@ -1306,10 +1754,14 @@ fn replay(run: &Run, path: &std::path::Path) -> ! {
         Ok(outs) => {
             for (k, inp) in inputs.iter().enumerate() {
                 let exp = rc::expected_text(&defs, inp).unwrap_or_else(|| machinery("input contains an unmapped code".into()));
-                let ok = outs[k].as_ref() == Ok(&exp);
-                if !ok || inputs.len() == 1 {
+                let verdict = agree(&defs, inp, &outs[k], &exp);
+                let ok = verdict != Agree::No;
+                if !ok || inputs.len() == 1 || verdict == Agree::Open {
                     println!("input {}: observed: {}", input_json(inp), show(&outs[k]));
-                    println!("input {}: expected: {}", input_json(inp), show(&Ok(exp)));
+                    println!("input {}: expected: {}", input_json(inp), show_expected(&defs, inp, &exp));
+                    if verdict == Agree::Open {
+                        println!("input {}: differs only in what an unpaired surrogate became: no verdict", input_json(inp));
+                    }
                 }
                 failed |= !ok;
             }
